@@ -100,7 +100,7 @@ pub fn generate(opts: &Opts, sink: &mut CaseSink) {
     let f4 = vec![E::Timestamped((0, 10001), 10), E::Timestamped((0, 5002), 5), E::Watermark(30),
                   E::FlushAndRestart, E::Terminate];
     emit_event(sink, 10, 10, f4, "corpus");
-    let n = if opts.thorough { 8000 } else { 900 };
+    let n = (if opts.thorough { 8000 } else { 900 }) / opts.scale;
     for i in 0..n {
         let size = rng.range(1, 12);
         let slide = match rng.below(3) { 0 => size, 1 => 1.max(size / 2), _ => rng.range(1, size) };
@@ -109,7 +109,7 @@ pub fn generate(opts: &Opts, sink: &mut CaseSink) {
         let s = script(&mut rng, size, slide, in_order);
         emit_event(sink, size, slide, s, if in_order { "event_in_order" } else { "event_out_of_order" });
     }
-    for _ in 0..(if opts.thorough { 3000 } else { 300 }) {
+    for _ in 0..((if opts.thorough { 3000 } else { 300 }) / opts.scale) {
         let s = script(&mut rng, 5, 5, true);
         let out = run_txn(s.clone()).unwrap_or_else(|_| failed());
         let term = format!("(CTxn {} {})", s.coq(), out.coq());
